@@ -293,6 +293,26 @@ class StateWorld(Run):
     def _p_copy(self, rng):
         return {"op": "copy", "src": self._pick(rng), "slot": self._free_slot(rng)}
 
+    def _p_diag(self, rng):
+        pure = [s for s in sorted(self.slots) if self.model[s].rank == 0]
+        if not pure:
+            return None
+        return {"op": "diag", "slot": rng.choice(pure), "dir": rng.choice(["fwd", "fwd", "bwd_after_fwd"])}
+
+    def _a_diag(self, op):
+        name, st = self._state(op)
+        if self.model[name].rank != 0:
+            raise Skip()
+
+        def f():
+            circ = self.pc.diagonalize(st)
+            circ.forward(st)
+            if op["dir"] == "bwd_after_fwd":
+                circ.backward(st)
+        self._env_call(name, "diagonalize", f)
+        self.stats["diagonalize"] += 1
+        return self._digest(name)
+
     def _p_setr(self, rng):
         # set_r on a full tableau: any r in [0,N] is legal for a valid tableau
         return {"op": "setr", "slot": self._pick(rng), "r": rng.randrange(0, self.n + 1)}
@@ -349,9 +369,6 @@ class StateWorld(Run):
             P = (l, rng.choice((0, 2)))
             if all(rm.pcommute(P[0], q[0]) for q in obs):
                 obs.append(P)
-                self_kind = kind
-                if kind == "both":
-                    self.probes["obs_anticommutes_logical_and_stabilizer"] += 0  # counted at apply
         if not obs:
             obs = [rm.rand_hermitian(rng, n)]
         return obs
